@@ -413,6 +413,16 @@ def check_population(m, before_ids, text, name):
             o_attr = one(sub).O_ATTR[806]()
             if o_attr is not None and one(o_attr).S_DT[114]() is not dt and ooaofooa.get_attribute_type(o_attr) is not dt:
                 return ('attribute read not typed as the attribute', o_attr.Name, dt.Name)
+            # a read through `selected` refers to an attribute of the class the enclosing selection ranges over
+            # (class read off the source line: `from instances of K where` / `...->K[Rn...] where`)
+            root = one(sub).V_VAL[807]()
+            if o_attr is not None and root is not None and one(root).V_SLR[801]() is not None and 0 < v.LineNumber <= len(lines):
+                import re as _re
+                ln = lines[v.LineNumber - 1]
+                mm = _re.search(r'(?i)from\s+instances\s+of\s+(\w+)\s+where', ln) or _re.search(r'(?i)->\s*(\w+)\s*\[[^\]]*\]\s*where', ln)
+                o_obj = one(o_attr).O_OBJ[102]()
+                if mm and o_obj is not None and o_obj.Key_Lett != mm.group(1):
+                    return ('attribute read through selected refers to an attribute of another class', o_attr.Name, o_obj.Key_Lett, mm.group(1))
         if kind == 'V_MVL':
             s_mbr = one(sub).S_MBR[836]()
             if s_mbr is None or one(s_mbr).S_DT[45]() is not dt:
